@@ -268,3 +268,5 @@ SUBS = [
     Sub("collection", lambda tier: collection_cases(tier), check_collection, quick=300, thorough=2000),
     Sub("version", lambda tier: version_cases(tier), check_version, quick=300, thorough=2000),
 ]
+
+RULE += ' Also: gaps far below the allclose tolerance (edges compared bit for bit); collections of Radial / Azimuthal members.'
